@@ -98,6 +98,17 @@ Record facts := mkFacts {
   cf_hub_black : bool             (* caller is in the hub's blacklist *)
 }.
 
+(** Recorded original owner of a paid position, relative to the user a caller acts for: the user
+    itself, or another user — who may have authorised the caller too, may have revoked it, or may
+    never have authorised it (the three cases are told apart only to show that they do not matter). *)
+Inductive other_auth := OAlsoAuthorised | ORevoked | ONeverAuthorised.
+Definition other_auth_id (a : other_auth) : Z :=
+  match a with OAlsoAuthorised => 0 | ORevoked => 1 | ONeverAuthorised => 2 end.
+Inductive owner_tag := OUser | OOther (a : other_auth).
+Definition is_user_tag (t : owner_tag) : bool := match t with OUser => true | OOther _ => false end.
+(** original_owner_helper: every paid position must carry the user as its original owner *)
+Definition all_owned_by_user (l : list owner_tag) : bool := forallb is_user_tag l.
+
 (** ------------------------------------------------------------------ guards *)
 Inductive guard :=
 | GLifecycle           (* init / upgrade: reachable only through deployment / upgrade (protocol rule) *)
@@ -106,6 +117,10 @@ Inductive guard :=
 | GParty (p : party)   (* caller must be that counterparty *)
 | GOwnerOrOpen         (* router: the owner, or anybody once pair creation is enabled *)
 | GHub                 (* permissions_hub_module::require_user_whitelisted(user, caller) *)
+| GHubOwned (l : list owner_tag)
+                       (* ... plus original_owner_helper::check_additional_payments_original_owner /
+                          get_claim_original_owner / farm-staking-proxy check_stake_farm_payments over the
+                          paid positions [l] (main position first, then the additional ones) *)
 | GNobody              (* allow_external_claim(user): a flag no endpoint can set *)
 | GQuery               (* require_queried: caller == the contract itself (VM query) *)
 | GAnyone.
@@ -127,6 +142,7 @@ Definition guard_ok (open : bool) (g : guard) (f : facts) : bool :=
   | GParty p => cf_party f p
   | GOwnerOrOpen => cf_chain_owner f || open
   | GHub => hub_authorised f
+  | GHubOwned l => all_owned_by_user l && hub_authorised f
   | GNobody => false
   | GQuery => false
   | GAnyone => true
@@ -215,8 +231,31 @@ Definition ExternalClaim (s : sreq) := mkClass GNobody s KOnBehalf.
 Inductive variant :=
 | VPlain
 | VOrigCaller    (* the optional original-caller argument is given (another user's address) *)
-| VForOther.     (* claimBoostedRewards for another user's address *)
-Definition variant_id (v : variant) : Z := match v with VPlain => 0 | VOrigCaller => 1 | VForOther => 2 end.
+| VForOther      (* claimBoostedRewards for another user's address *)
+| VMultiOwn      (* on behalf, three position payments, all recorded for the user acted for *)
+| VForeignOwner (k : Z) (o : other_auth).
+                 (* on behalf, three position payments; payment k (0 = main, 1 / 2 = first / second
+                    additional) is recorded for ANOTHER user, whose relation to the caller is [o] *)
+Definition variant_id (v : variant) : Z :=
+  match v with
+  | VPlain => 0 | VOrigCaller => 1 | VForOther => 2 | VMultiOwn => 3
+  | VForeignOwner k o => 10 + 3 * k + other_auth_id o
+  end.
+
+(** the recorded owners of the paid positions of a multi-payment on-behalf variant *)
+Definition tag_at (k : Z) (o : other_auth) (i : Z) : owner_tag := if i =? k then OOther o else OUser.
+Definition payments_of (v : variant) : list owner_tag :=
+  match v with
+  | VMultiOwn => [OUser; OUser; OUser]
+  | VForeignOwner k o => [tag_at k o 0; tag_at k o 1; tag_at k o 2]
+  | _ => [OUser]
+  end.
+
+(** on behalf with several position payments: allowed only if every paid position's recorded owner is
+    the user acted for and that user authorised the caller *)
+Definition OnBehalfMulti (s : sreq) := mkClass (GHubOwned (payments_of VMultiOwn)) s KOnBehalf.
+Definition ForeignOwner (k : Z) (o : other_auth) (s : sreq) :=
+  mkClass (GHubOwned (payments_of (VForeignOwner k o))) s KOnBehalf.
 Definition variant_eqb (a b : variant) : bool := variant_id a =? variant_id b.
 
 Definition row := (contract * string * variant * class)%type.
@@ -380,7 +419,24 @@ Definition access_table : list row := [
   (CFarm, "getBurnGasLimit", VPlain, View);
   (CFarm, "getPairContractManagedAddress", VPlain, View);
   (CFarm, "enterFarmOnBehalf", VPlain, OnBehalf SActive);
+  (CFarm, "enterFarmOnBehalf", VMultiOwn, OnBehalfMulti SActive);
+  (CFarm, "enterFarmOnBehalf", VForeignOwner 1 OAlsoAuthorised, ForeignOwner 1 OAlsoAuthorised SActive);
+  (CFarm, "enterFarmOnBehalf", VForeignOwner 1 ORevoked, ForeignOwner 1 ORevoked SActive);
+  (CFarm, "enterFarmOnBehalf", VForeignOwner 1 ONeverAuthorised, ForeignOwner 1 ONeverAuthorised SActive);
+  (CFarm, "enterFarmOnBehalf", VForeignOwner 2 OAlsoAuthorised, ForeignOwner 2 OAlsoAuthorised SActive);
+  (CFarm, "enterFarmOnBehalf", VForeignOwner 2 ORevoked, ForeignOwner 2 ORevoked SActive);
+  (CFarm, "enterFarmOnBehalf", VForeignOwner 2 ONeverAuthorised, ForeignOwner 2 ONeverAuthorised SActive);
   (CFarm, "claimRewardsOnBehalf", VPlain, OnBehalf SActive);
+  (CFarm, "claimRewardsOnBehalf", VMultiOwn, OnBehalfMulti SActive);
+  (CFarm, "claimRewardsOnBehalf", VForeignOwner 0 OAlsoAuthorised, ForeignOwner 0 OAlsoAuthorised SActive);
+  (CFarm, "claimRewardsOnBehalf", VForeignOwner 0 ORevoked, ForeignOwner 0 ORevoked SActive);
+  (CFarm, "claimRewardsOnBehalf", VForeignOwner 0 ONeverAuthorised, ForeignOwner 0 ONeverAuthorised SActive);
+  (CFarm, "claimRewardsOnBehalf", VForeignOwner 1 OAlsoAuthorised, ForeignOwner 1 OAlsoAuthorised SActive);
+  (CFarm, "claimRewardsOnBehalf", VForeignOwner 1 ORevoked, ForeignOwner 1 ORevoked SActive);
+  (CFarm, "claimRewardsOnBehalf", VForeignOwner 1 ONeverAuthorised, ForeignOwner 1 ONeverAuthorised SActive);
+  (CFarm, "claimRewardsOnBehalf", VForeignOwner 2 OAlsoAuthorised, ForeignOwner 2 OAlsoAuthorised SActive);
+  (CFarm, "claimRewardsOnBehalf", VForeignOwner 2 ORevoked, ForeignOwner 2 ORevoked SActive);
+  (CFarm, "claimRewardsOnBehalf", VForeignOwner 2 ONeverAuthorised, ForeignOwner 2 ONeverAuthorised SActive);
   (CFarm, "collectUndistributedBoostedRewards", VPlain, AdminPerm);
   (CFarm, "getBoostedYieldsRewardsPercentage", VPlain, View);
   (CFarm, "getAccumulatedRewardsForWeek", VPlain, View);
@@ -457,7 +513,24 @@ Definition access_table : list row := [
   (CFarmLocked, "getBurnGasLimit", VPlain, View);
   (CFarmLocked, "getPairContractManagedAddress", VPlain, View);
   (CFarmLocked, "enterFarmOnBehalf", VPlain, OnBehalf SActive);
+  (CFarmLocked, "enterFarmOnBehalf", VMultiOwn, OnBehalfMulti SActive);
+  (CFarmLocked, "enterFarmOnBehalf", VForeignOwner 1 OAlsoAuthorised, ForeignOwner 1 OAlsoAuthorised SActive);
+  (CFarmLocked, "enterFarmOnBehalf", VForeignOwner 1 ORevoked, ForeignOwner 1 ORevoked SActive);
+  (CFarmLocked, "enterFarmOnBehalf", VForeignOwner 1 ONeverAuthorised, ForeignOwner 1 ONeverAuthorised SActive);
+  (CFarmLocked, "enterFarmOnBehalf", VForeignOwner 2 OAlsoAuthorised, ForeignOwner 2 OAlsoAuthorised SActive);
+  (CFarmLocked, "enterFarmOnBehalf", VForeignOwner 2 ORevoked, ForeignOwner 2 ORevoked SActive);
+  (CFarmLocked, "enterFarmOnBehalf", VForeignOwner 2 ONeverAuthorised, ForeignOwner 2 ONeverAuthorised SActive);
   (CFarmLocked, "claimRewardsOnBehalf", VPlain, OnBehalf SActive);
+  (CFarmLocked, "claimRewardsOnBehalf", VMultiOwn, OnBehalfMulti SActive);
+  (CFarmLocked, "claimRewardsOnBehalf", VForeignOwner 0 OAlsoAuthorised, ForeignOwner 0 OAlsoAuthorised SActive);
+  (CFarmLocked, "claimRewardsOnBehalf", VForeignOwner 0 ORevoked, ForeignOwner 0 ORevoked SActive);
+  (CFarmLocked, "claimRewardsOnBehalf", VForeignOwner 0 ONeverAuthorised, ForeignOwner 0 ONeverAuthorised SActive);
+  (CFarmLocked, "claimRewardsOnBehalf", VForeignOwner 1 OAlsoAuthorised, ForeignOwner 1 OAlsoAuthorised SActive);
+  (CFarmLocked, "claimRewardsOnBehalf", VForeignOwner 1 ORevoked, ForeignOwner 1 ORevoked SActive);
+  (CFarmLocked, "claimRewardsOnBehalf", VForeignOwner 1 ONeverAuthorised, ForeignOwner 1 ONeverAuthorised SActive);
+  (CFarmLocked, "claimRewardsOnBehalf", VForeignOwner 2 OAlsoAuthorised, ForeignOwner 2 OAlsoAuthorised SActive);
+  (CFarmLocked, "claimRewardsOnBehalf", VForeignOwner 2 ORevoked, ForeignOwner 2 ORevoked SActive);
+  (CFarmLocked, "claimRewardsOnBehalf", VForeignOwner 2 ONeverAuthorised, ForeignOwner 2 ONeverAuthorised SActive);
   (CFarmLocked, "collectUndistributedBoostedRewards", VPlain, AdminPerm);
   (CFarmLocked, "getBoostedYieldsRewardsPercentage", VPlain, View);
   (CFarmLocked, "getAccumulatedRewardsForWeek", VPlain, View);
@@ -534,7 +607,24 @@ Definition access_table : list row := [
   (CStaking, "unstakeFarmThroughProxy", VPlain, WhitelistedSC SActive);
   (CStaking, "unbondFarm", VPlain, UserFunds SActive);
   (CStaking, "stakeFarmOnBehalf", VPlain, OnBehalf SActive);
+  (CStaking, "stakeFarmOnBehalf", VMultiOwn, OnBehalfMulti SActive);
+  (CStaking, "stakeFarmOnBehalf", VForeignOwner 1 OAlsoAuthorised, ForeignOwner 1 OAlsoAuthorised SActive);
+  (CStaking, "stakeFarmOnBehalf", VForeignOwner 1 ORevoked, ForeignOwner 1 ORevoked SActive);
+  (CStaking, "stakeFarmOnBehalf", VForeignOwner 1 ONeverAuthorised, ForeignOwner 1 ONeverAuthorised SActive);
+  (CStaking, "stakeFarmOnBehalf", VForeignOwner 2 OAlsoAuthorised, ForeignOwner 2 OAlsoAuthorised SActive);
+  (CStaking, "stakeFarmOnBehalf", VForeignOwner 2 ORevoked, ForeignOwner 2 ORevoked SActive);
+  (CStaking, "stakeFarmOnBehalf", VForeignOwner 2 ONeverAuthorised, ForeignOwner 2 ONeverAuthorised SActive);
   (CStaking, "claimRewardsOnBehalf", VPlain, OnBehalf SActive);
+  (CStaking, "claimRewardsOnBehalf", VMultiOwn, OnBehalfMulti SActive);
+  (CStaking, "claimRewardsOnBehalf", VForeignOwner 0 OAlsoAuthorised, ForeignOwner 0 OAlsoAuthorised SActive);
+  (CStaking, "claimRewardsOnBehalf", VForeignOwner 0 ORevoked, ForeignOwner 0 ORevoked SActive);
+  (CStaking, "claimRewardsOnBehalf", VForeignOwner 0 ONeverAuthorised, ForeignOwner 0 ONeverAuthorised SActive);
+  (CStaking, "claimRewardsOnBehalf", VForeignOwner 1 OAlsoAuthorised, ForeignOwner 1 OAlsoAuthorised SActive);
+  (CStaking, "claimRewardsOnBehalf", VForeignOwner 1 ORevoked, ForeignOwner 1 ORevoked SActive);
+  (CStaking, "claimRewardsOnBehalf", VForeignOwner 1 ONeverAuthorised, ForeignOwner 1 ONeverAuthorised SActive);
+  (CStaking, "claimRewardsOnBehalf", VForeignOwner 2 OAlsoAuthorised, ForeignOwner 2 OAlsoAuthorised SActive);
+  (CStaking, "claimRewardsOnBehalf", VForeignOwner 2 ORevoked, ForeignOwner 2 ORevoked SActive);
+  (CStaking, "claimRewardsOnBehalf", VForeignOwner 2 ONeverAuthorised, ForeignOwner 2 ONeverAuthorised SActive);
   (CStaking, "claimBoostedRewards", VPlain, UserFunds SActive);
   (CStaking, "claimBoostedRewards", VForOther, ExternalClaim SActive);
   (CStaking, "collectUndistributedBoostedRewards", VPlain, AdminPerm);
@@ -582,6 +672,16 @@ Definition access_table : list row := [
   (CStakingProxy, "unstakeFarmTokens", VPlain, UserFunds SAny);
   (CStakingProxy, "unstakeFarmTokens", VOrigCaller, OrigCaller SAny);
   (CStakingProxy, "stakeFarmOnBehalf", VPlain, OnBehalf SAny);
+  (CStakingProxy, "stakeFarmOnBehalf", VMultiOwn, OnBehalfMulti SAny);
+  (CStakingProxy, "stakeFarmOnBehalf", VForeignOwner 0 OAlsoAuthorised, ForeignOwner 0 OAlsoAuthorised SAny);
+  (CStakingProxy, "stakeFarmOnBehalf", VForeignOwner 0 ORevoked, ForeignOwner 0 ORevoked SAny);
+  (CStakingProxy, "stakeFarmOnBehalf", VForeignOwner 0 ONeverAuthorised, ForeignOwner 0 ONeverAuthorised SAny);
+  (CStakingProxy, "stakeFarmOnBehalf", VForeignOwner 1 OAlsoAuthorised, ForeignOwner 1 OAlsoAuthorised SAny);
+  (CStakingProxy, "stakeFarmOnBehalf", VForeignOwner 1 ORevoked, ForeignOwner 1 ORevoked SAny);
+  (CStakingProxy, "stakeFarmOnBehalf", VForeignOwner 1 ONeverAuthorised, ForeignOwner 1 ONeverAuthorised SAny);
+  (CStakingProxy, "stakeFarmOnBehalf", VForeignOwner 2 OAlsoAuthorised, ForeignOwner 2 OAlsoAuthorised SAny);
+  (CStakingProxy, "stakeFarmOnBehalf", VForeignOwner 2 ORevoked, ForeignOwner 2 ORevoked SAny);
+  (CStakingProxy, "stakeFarmOnBehalf", VForeignOwner 2 ONeverAuthorised, ForeignOwner 2 ONeverAuthorised SAny);
   (CStakingProxy, "claimDualYieldOnBehalf", VPlain, OnBehalf SAny);
   (* ---- energy-factory *)
   (CEnergy, "init", VPlain, Lifecycle);
@@ -1059,3 +1159,23 @@ Definition claim_on_behalf (h : hub) (caller : Z) (owners : list Z) (reward : Z)
   do user <- claim_original_owner owners None;
   check is_whitelisted h user caller else EPerm;
   Ok [(user, reward)].
+
+(** ------------------------------------------------------------------ several positions on behalf
+    The on-behalf endpoints that accept several position payments, with the payment positions that
+    carry a recorded owner (0 = main payment, 1 / 2 = additional payments).  For enterFarmOnBehalf /
+    stakeFarmOnBehalf of the farms the main payment is the farming token, which has no owner.
+    (farm-staking-proxy claimDualYieldOnBehalf takes exactly one payment: call_value().single_esdt().) *)
+Definition multi_payment_on_behalf : list (contract * string * list Z) :=
+  [(CFarm, "enterFarmOnBehalf", [1; 2]); (CFarm, "claimRewardsOnBehalf", [0; 1; 2]);
+   (CFarmLocked, "enterFarmOnBehalf", [1; 2]); (CFarmLocked, "claimRewardsOnBehalf", [0; 1; 2]);
+   (CStaking, "stakeFarmOnBehalf", [1; 2]); (CStaking, "claimRewardsOnBehalf", [0; 1; 2]);
+   (CStakingProxy, "stakeFarmOnBehalf", [0; 1; 2])]%string.
+
+(** enterFarmOnBehalf / stakeFarmOnBehalf (farms: check_additional_payments_original_owner;
+    farm-staking-proxy: check_stake_farm_payments): the user is an argument, the caller must be
+    authorised by that user, and every paid position that records an owner must record that user.
+    [owners]: the recorded owners of the paid positions, in payment order. *)
+Definition enter_on_behalf (h : hub) (caller user : Z) (owners : list Z) : result unit :=
+  check is_whitelisted h user caller else EPerm;
+  check forallb (fun o => o =? user) owners else EPerm;
+  Ok tt.
